@@ -181,19 +181,21 @@ def body_raises(which: int, pos: int, has_bak: bool, has_out: bool, ssc: bool) -
 
 def save_fails(kind: int, ssc: bool, has_bak: bool, has_out: bool) -> bool:
     """
-    pre: 0 <= kind <= 2
+    pre: 0 <= kind <= 3
     post: _
     """
     global LAST
     # kind 0: unserializable property value; 1: SSC chart without note data / SM chart field replaced by a non-string;
-    # 2: a character the detected encoding cannot encode (real serializer, concrete value)
+    # 2: a character the detected encoding (cp1252) cannot encode; 3: a lone surrogate, which UTF-8 cannot encode
+    # (2 and 3: real serializer, concrete value)
     name = "a.ssc" if ssc else "a.sm"
     orig = SSC_TEXT if ssc else SM_TEXT
-    if kind == 2:
+    if kind >= 2:
         xhlib.install_real()
     try:
         # kind 2: the file decodes only as cp1252 and U+2603 has no cp1252 encoding (the model filesystem refuses it too)
-        fs = ModelFS({name: orig}, unencodable="☃" if kind == 2 else None, decodes={"utf-8": kind != 2, "cp1252": True, "cp932": True, "cp949": True})
+        bad_char = {2: "☃", 3: "\udc80"}.get(kind)
+        fs = ModelFS({name: orig}, unencodable=bad_char, decodes={"utf-8": kind != 2, "cp1252": True, "cp932": True, "cp949": True})
         out = "o.sm" if has_out else None
         bak = "b.sm" if has_bak else None
         failed = False
@@ -201,7 +203,7 @@ def save_fails(kind: int, ssc: bool, has_bak: bool, has_out: bool) -> bool:
         entry_stream = None
         try:
             with mutate(name, output_filename=out, backup_filename=bak, filesystem=fs) as sf:
-                if kind != 2:
+                if kind < 2:
                     entry_stream, _ = record_keep(sf)
                 if kind == 0:
                     sf["TITLE"] = 12345
@@ -211,7 +213,7 @@ def save_fails(kind: int, ssc: bool, has_bak: bool, has_out: bool) -> bool:
                     else:
                         sf.charts.append(None)
                 else:
-                    sf["TITLE"] = "snow☃man"
+                    sf["TITLE"] = "snow" + bad_char + "man"
         except (AttributeError, KeyError, TypeError, UnicodeEncodeError):
             failed = True
         if not failed:
@@ -221,7 +223,7 @@ def save_fails(kind: int, ssc: bool, has_bak: bool, has_out: bool) -> bool:
             LAST = ("input file damaged", fs.files.get(name))
             return False
         if bak and bak in fs.files and bak in fs.closed:
-            if kind == 2:
+            if kind >= 2:
                 if fs.files[bak] != orig and simfile.loads(fs.files[bak]) != simfile.loads(orig):
                     return False
             elif stream_of_text(fs.files[bak]) != entry_stream:
@@ -229,7 +231,7 @@ def save_fails(kind: int, ssc: bool, has_bak: bool, has_out: bool) -> bool:
                 return False
         return True
     finally:
-        if kind == 2:
+        if kind >= 2:
             xhlib.install_stub()
 
 
